@@ -219,8 +219,9 @@ typedef struct {
  * @internal
  */
 struct _vbi_xds_demux {
+	/* Subclass 0x00 ... 0x17, then subclass 0x40 ... 0x47. */
 	_vbi_xds_subpacket	subpacket[VBI_XDS_MAX_CLASSES]
-					 [VBI_XDS_MAX_SUBCLASSES];
+					 [VBI_XDS_MAX_SUBCLASSES + 8];
 
 	vbi_xds_packet		curr;
 	_vbi_xds_subpacket *	curr_sp;
